@@ -30,7 +30,7 @@ IMPORTS = "From XV Require Import Base.Str Base.Eqb Spec.WsdlSpec Model.Wsdl Mod
 CLASSES = {1: "header-after-body-order", 2: "rpc-response-wrapper-name", 3: "empty-soapaction-dropped",
            4: "style-default-not-published", 5: "document-type-part-accessor", 6: "rpc-element-part-no-accessor",
            7: "rpc-body-parts-ignored", 8: "duplicate-service-name-last-wins",
-           9: "output-header-required"}
+           9: "output-header-required", 10: "rpc-message-shadows-schema-element"}
 DIRECTED = [
     {"layout": "one", "n_ops": 1, "binding_style": "document", "op_style": None, "header": 1, "header_after_body": 1},
     {"layout": "one", "n_ops": 1, "binding_style": "rpc", "op_style": None, "rpc_bad_response_name": 1},
@@ -45,6 +45,29 @@ DIRECTED = [
     {"layout": "two_bindings", "n_ops": 3, "schema_mode": "inline", "header": 1, "header_after_body": 0},
     {"layout": "one", "n_ops": 1, "binding_style": "document", "op_style": "rpc", "n_faults": 0},
 ]
+
+
+# a fixed document: the rpc input message and a global element share the expanded name {urn:svc}Token
+SHADOW_WSDL = """<definitions xmlns:soap="http://schemas.xmlsoap.org/wsdl/soap/" xmlns:tns="urn:svc"
+ xmlns:xsd="http://www.w3.org/2001/XMLSchema" xmlns="http://schemas.xmlsoap.org/wsdl/" targetNamespace="urn:svc" name="S">
+ <types><xsd:schema targetNamespace="urn:svc" elementFormDefault="qualified">
+   <xsd:element name="Token"><xsd:complexType><xsd:sequence><xsd:element name="tok" type="xsd:string"/></xsd:sequence></xsd:complexType></xsd:element>
+ </xsd:schema></types>
+ <message name="Token"><part name="x" type="xsd:string"/></message>
+ <message name="RpcResponse"><part name="return" type="xsd:int"/></message>
+ <message name="Hdr"><part name="h" element="tns:Token"/></message>
+ <portType name="PT">
+  <operation name="Rpc"><input message="tns:Token"/><output message="tns:RpcResponse"/></operation>
+ </portType>
+ <binding name="B" type="tns:PT">
+  <soap:binding transport="http://schemas.xmlsoap.org/soap/http" style="rpc"/>
+  <operation name="Rpc"><soap:operation soapAction="urn:rpc"/>
+    <input><soap:header message="tns:Hdr" part="h" use="literal"/><soap:body use="literal" namespace="urn:rpcns"/></input>
+    <output><soap:body use="literal" namespace="urn:rpcns"/></output></operation>
+ </binding>
+ <service name="S"><port name="P" binding="tns:B"><soap:address location="http://h/x"/></port></service>
+</definitions>
+"""
 
 
 # ------------------------------------------------------------------ generated classes -> shape terms
@@ -122,6 +145,7 @@ def run(ck: Check):
             except Exception:  # noqa
                 pass
         n_rand = ck.n(34, 900)
+        cases.append({"files": {"svc.wsdl": SHADOW_WSDL}, "origin": "fixed:shadow", "features": ["message-shadows-element"]})
         for i, force in enumerate(DIRECTED):
             W = G.gen_wsdl(r, i, force)
             cases.append({"files": G.render(W), "origin": "directed", "features": W["features"], "W": W})
@@ -204,8 +228,9 @@ def run(ck: Check):
                         ck.failure("posted-payload-not-xml", f"{name}: fault response not well-formed: {ex!r}", replay_of(i, step=st))
         c["eobs"] = eobs
         c["real"] = real
+        mapped = ("(Some " + clist(o["mapped"], G.t_fclass, "fclass") + ")") if "mapped" in o else "None"
         term = ("(mk_case " + G.t_defs(D_doc) + " " + clist(senv, lambda q: f"({cstr(q[0])}, {cstr(q[1])}, {copt(q[2], cstr)})", "(str * str * option str)") + " "
-                + clist(real, G.t_sd, "service_desc") + " "
+                + mapped + " " + clist(real, G.t_sd, "service_desc") + " "
                 + clist(eobs, lambda e: f"(mk_e2e {cstr(e[0])} {e[1]}%nat {G.t_xtree(e[2])} {cstr(e[3])} "
                         + clist(e[4], lambda kv: f"({cstr(kv[0])}, {cstr(kv[1])})", "(str * str)") + ")", "e2e_obs") + ")")
         coq_cases.append(term)
@@ -229,12 +254,15 @@ def run(ck: Check):
                 verdicts[coq_ids[j]] = v
 
     for i, v in sorted(verdicts.items()):
-        wf, corr_model, codes, no_extra, ecodes = v
+        wf, corr_raw, corr_model, codes, no_extra, ecodes = v
         c, o = cases[i], results[i]
         names = [s["name"] for s in c["real"]]
         if not wf:
             ck.failure("harness-generator-outside-fragment", "generated WSDL is outside wf_definitions", replay_of(i))
             continue
+        if not corr_raw:
+            ck.failure("corr-mapper-classes", "Model/Wsdl.v map_definitions and the real DefinitionsMapper.map disagree "
+                       "(raw classes: names, namespaces, types, occurrences, references)", replay_of(i))
         if not corr_model:
             ck.failure("corr-mapper", "Model/Wsdl.v and the real pipeline disagree on the generated services "
                        f"(real: {names})", replay_of(i, real=c["real"]))
@@ -357,7 +385,7 @@ def run(ck: Check):
                       "(WSDL, service description) pairs judged against `expected`; each also drives 7 client steps")
     ck.cov["input_distribution"] = stats
     ck.cov["samples"] = [{"origin": cases[i]["origin"], "features": cases[i]["features"],
-                          "services": [s["name"] for s in cases[i].get("real", [])], "verdict": list(verdicts[i][2])}
+                          "services": [s["name"] for s in cases[i].get("real", [])], "verdict": list(verdicts[i][3])}
                          for i in sorted(verdicts)[:6]]
     return ck.finish(obligations=obligations, discharged=discharged,
                      checker_cmd="make -C coq Properties/C17.vo Model/WsdlCorr.vo && coqc -Q coq XV coq/Properties/C17.v (Print Assumptions); "
